@@ -12,6 +12,8 @@ Calculators: harness calculators in three caching styles (plain ASE cache, resul
 per-atom internal state) plus ASE's EMT and LennardJones.
 Every other simulation carries constraints (FixAtoms on a framework or the first atom,
 FixCom): the calculator's own copy of the atoms carries copies of them too.
+Further dimensions: an on-demand calculator (forces only when asked for) with force queries between trials, and
+constraints that contribute to the energy (Hookean, ExternalForce).
 """
 from __future__ import annotations
 
